@@ -22,6 +22,27 @@ def _tuple_ret(v: ast.expr | None) -> tuple[str, str] | None:
     return None
 
 
+def split_pair_returns(body: list[ast.stmt]) -> list[ast.stmt]:
+    """``return (E, X)`` with a comparison / boolean combination E is decided like ``if E: return (True, X) else: return (False, X)``
+    (the consumers of a match result only test the truth of its first component)."""
+    import copy
+
+    class T(ast.NodeTransformer):
+        def visit_Return(self, node: ast.Return) -> ast.AST:
+            v = node.value
+            if isinstance(v, ast.Tuple) and len(v.elts) == 2 and isinstance(v.elts[0], (ast.Compare, ast.BoolOp, ast.UnaryOp, ast.IfExp)) \
+                    and not any(isinstance(x, ast.NamedExpr) for x in ast.walk(v)):
+                def mk(b: bool) -> ast.stmt:
+                    return ast.copy_location(ast.Return(value=ast.Tuple(elts=[ast.Constant(value=b), copy.deepcopy(v.elts[1])], ctx=ast.Load())), node)
+                return ast.fix_missing_locations(ast.copy_location(ast.If(test=v.elts[0], body=[mk(True)], orelse=[mk(False)]), node))
+            return node
+
+        def visit_FunctionDef(self, node):
+            return node
+
+    return [T().visit(copy.deepcopy(st)) for st in body]
+
+
 def r_api_re(ck: Checker) -> None:
     f = ck.repo.func(PAT, "RegexMatcher._match")
     calls = [c for c in walk_body(f.node.body) if isinstance(c, ast.Call) and isinstance(c.func, ast.Attribute)
@@ -38,7 +59,7 @@ def r_api_re(ck: Checker) -> None:
         ck.violation("R-API-RE", f, c, what, construct=f"RegexMatcher._match matches against {norm(arg) if arg is not None else None}")
     else:
         ck.holds("R-API-RE", f, c, what)
-    leaves = decision_tree(strip_docstring(f.node.body))
+    leaves = decision_tree(split_pair_returns(strip_docstring(f.node.body)), resolve="calls")
     key = k_none(norm(c))
     bad = []
     for lf in leaves:
@@ -61,7 +82,7 @@ def r_node_eq(ck: Checker) -> None:
         f = ck.repo.func(PAT, f"{cls}._match")
         body = strip_docstring(f.node.body)
         subj = subject or "ctx[self.var_name]"
-        leaves = decision_tree(body)
+        leaves = decision_tree(split_pair_returns(body), resolve=True)
         k_node = f"isinstance({subj}, ASTNode)"
         bad = []
         seen_node = False
@@ -408,45 +429,51 @@ def r_pure_match(ck: Checker) -> None:
 
 
 def r_multi_order(ck: Checker) -> None:
+    import copy
     f = ck.repo.func(PAT, "MultiPatternMatcher.match")
     body = strip_docstring(f.node.body)
     what = "MultiPatternMatcher.match tries the rules in the given order and returns the first success"
     np_, rp = f.node.args.args[1].arg, (f.node.args.args[2].arg if len(f.node.args.args) > 2 else f.node.args.kwonlyargs[0].arg)
     table = "self._name_to_matcher"
-    leaves = decision_tree(body, resolve=True)
-    bad = None
-    n = 0
-    for lf in leaves:  # positive pattern first: an explicit order is given, yet the table's own order is iterated
-        loops = [st for st in lf.stmts if isinstance(st, ast.For)]
-        if len(loops) == 1 and lf.assign.get(k_none(rp)) is False and norm(loops[0].iter) in (table, f"{table}.keys()", f"{table}.items()"):
-            bad = bad or f"rules given: iterates {norm(loops[0].iter)} (registration order) instead of the given order"
-    for lf in leaves:
-        if bad:
-            break
-        loops = [st for st in lf.stmts if isinstance(st, ast.For)]
-        if len(loops) != 1 or loops[0].orelse or not isinstance(loops[0].target, ast.Name):
-            if len(loops) == 1 and k_none(rp) not in lf.assign and norm(loops[0].iter) in (f"{table}.items()", f"{table}.keys()", table):
-                bad = bad or f"iterates {norm(loops[0].iter)} (registration order) whatever order the caller gives"
-                continue
-            raise Unsupported("MultiPatternMatcher.match: not a single loop over the rule names", f.node)
-        lp = loops[0]
-        for rules_none in (True, False):
-            if lf.assign.get(k_none(rp), rules_none) != rules_none:
-                continue
-            it = lp.iter
-            while isinstance(it, ast.IfExp):
-                try:
-                    it = it.body if Evaluator({k_none(rp): rules_none}).ev(it.test) else it.orelse
-                except NeedAtom:
-                    raise Unsupported(f"MultiPatternMatcher.match iterates {norm(lp.iter)[:60]}", lp)
-            if k_none(rp) not in lf.assign and not isinstance(lp.iter, ast.IfExp):
-                if norm(it) == rp:
-                    bad = bad or "rules=None is not replaced by the registered rule names"
-                continue
-            n += 1
-            want = (f"{table}.keys()", table, f"list({table})", f"list({table}.keys())", f"tuple({table})") if rules_none else (rp,)
-            if norm(it) not in want:
-                bad = bad or f"rules {'not ' if rules_none else ''}given: iterates {norm(it)[:50]}"
+    problems: list[str] = []
+    decided: set[bool] = set()
+    info: dict[str, str] = {}
+
+    def hook(lp: ast.stmt, assign: dict) -> object:
+        """The search loop is decided (source of the order, body) and replaced by its summary: found -> what the body does on
+        the first success, not found -> the loop's else clause."""
+        if not isinstance(lp, ast.For):
+            raise Unsupported("MultiPatternMatcher.match: while loop", lp)
+        rules_none = assign.get(k_none(rp))
+        it = lp.iter
+        while isinstance(it, ast.IfExp):
+            if rules_none is None:
+                raise NeedAtom(k_none(rp), lp)
+            try:
+                it = it.body if Evaluator({k_none(rp): rules_none}).ev(it.test) else it.orelse
+            except NeedAtom:
+                raise Unsupported(f"MultiPatternMatcher.match iterates {norm(lp.iter)[:60]}", lp)
+        own_order = (f"{table}.keys()", table, f"list({table})", f"list({table}.keys())", f"tuple({table})")
+        if rules_none is None:
+            if norm(it) == rp:
+                problems.append("rules=None is not replaced by the registered rule names")
+            elif norm(it) in own_order + (f"{table}.items()",):
+                problems.append(f"iterates {norm(it)} (registration order) whatever order the caller gives")
+            else:
+                raise Unsupported(f"MultiPatternMatcher.match iterates {norm(it)[:60]}", lp)
+        else:
+            decided.add(rules_none)
+            if rules_none and norm(it) not in own_order:
+                problems.append(f"rules not given: iterates {norm(it)[:50]}")
+            if not rules_none and norm(it) != rp:
+                if norm(it) in own_order + (f"{table}.items()",):
+                    problems.append(f"rules given: iterates {norm(it)} (registration order) instead of the given order")
+                else:
+                    problems.append(f"rules given: iterates {norm(it)[:50]}")
+        if not isinstance(lp.target, ast.Name):
+            if problems:
+                return [ast.copy_location(ast.Return(value=ast.Constant(value=None)), lp)]
+            raise Unsupported("MultiPatternMatcher.match: the loop variable is not a rule name", lp)
         r = lp.target.id
         inner = decision_tree(lp.body, resolve="calls")
         calls = [st for st in walk_body(lp.body) if isinstance(st, ast.Assign) and isinstance(st.targets[0], ast.Tuple) and len(st.targets[0].elts) == 2
@@ -454,24 +481,47 @@ def r_multi_order(ck: Checker) -> None:
         if len(calls) != 1:
             raise Unsupported("MultiPatternMatcher.match: the loop does not unpack one <matcher>.match(node) result", lp)
         okv, cap = (norm(x) for x in calls[0].targets[0].elts)
+        info.update({"r": r, "cap": cap})
+        form = None
         for il in inner:
             done = [st for st in il.stmts if isinstance(st, ast.Assign) and isinstance(st.value, ast.Call) and isinstance(st.value.func, ast.Attribute) and st.value.func.attr == "match"]
             if not done or norm(done[0].value) != f"{table}[{r}].match({np_})":
-                bad = bad or f"rule {r} is matched with {[norm(d.value)[:50] for d in done]}"
+                problems.append(f"rule {r} is matched with {[norm(d.value)[:50] for d in done]}")
             if set(il.assign) - {okv}:
                 raise Unsupported(f"MultiPatternMatcher.match: loop decides on {sorted(il.assign)}", lp)
-            if il.assign.get(okv) is True and not (il.outcome == "return" and _tuple_ret(il.value) == (r, cap)):
-                bad = bad or f"a matching rule does not return (name, captures): {il.outcome} {il.val()}"
-            if il.assign.get(okv) is False and il.outcome not in ("fall", "continue"):
-                bad = bad or f"a failing rule ends the search: {il.outcome} {il.val()}"
             if okv not in il.assign:
-                bad = bad or "the match result is not consulted"
-        if lf.outcome not in ("fall", "return") or (lf.outcome == "return" and not (lf.value is None or is_none(lf.value))):
-            bad = bad or f"no rule matches: {lf.outcome} {lf.val()}"
-    if n < 2 and not bad:
+                problems.append("the match result is not consulted")
+            elif il.assign[okv]:
+                if il.outcome == "return":
+                    form = ("return", il.value)
+                elif il.outcome == "break":
+                    form = ("break", None)
+                else:
+                    problems.append(f"a matching rule does not end the search: {il.outcome}")
+            elif il.outcome not in ("fall", "continue"):
+                problems.append(f"a failing rule ends the search: {il.outcome} {il.val()}")
+        hit: list[ast.stmt] = [ast.Return(value=copy.deepcopy(form[1]))] if form and form[0] == "return" else [ast.Pass()]
+        summary = ast.If(test=ast.Name(id="__some_rule_matches__", ctx=ast.Load()), body=hit, orelse=copy.deepcopy(lp.orelse) or [ast.Pass()])
+        ast.copy_location(summary, lp)
+        return [ast.fix_missing_locations(summary)]
+
+    leaves = decision_tree(body, resolve=True, loop_hook=hook)
+    bad = problems[0] if problems else None
+    k_found = "__some_rule_matches__"
+    for lf in leaves:
+        if bad:
+            break
+        if set(lf.assign) - {k_none(rp), k_found}:
+            raise Unsupported(f"MultiPatternMatcher.match decides on {sorted(lf.assign)}", f.node)
+        if k_found not in lf.assign:
+            raise Unsupported("MultiPatternMatcher.match: a path does not run the search loop", f.node)
+        if lf.assign[k_found]:
+            if not (lf.outcome == "return" and _tuple_ret(lf.value) == (info.get("r"), info.get("cap"))):
+                bad = f"a matching rule does not return (name, captures): {lf.outcome} {lf.val()}"
+        elif lf.outcome not in ("fall", "return") or (lf.outcome == "return" and not (lf.value is None or is_none(lf.value))):
+            bad = f"no rule matches: {lf.outcome} {lf.val()}"
+    if not bad and decided != {True, False}:
         raise Unsupported("MultiPatternMatcher.match: the rule order source was not decided for both cases", f.node)
-    if bad and "n" in dir() and False:
-        pass
     (ck.holds if not bad else ck.violation)("R-MULTI-ORDER", f, f.node, what, **({"evaluations": len(leaves)} if not bad else {"construct": f"MultiPatternMatcher.match: {bad}"}))
     g = ck.repo.func(PAT, "MultiPatternMatcher.__init__")
     loops = [st for st in g.node.body if isinstance(st, ast.For)]
